@@ -691,7 +691,7 @@ func (s *scanner) stateAnyAnnotationStart(c byte) (st state, err error) {
 }
 
 func (s *scanner) stateInlineAnnotation(c byte) (state, error) {
-	if bytes.IsBlank(c) {
+	if bytes.IsSpace(c) { // a new line ends the (empty) annotation, it is not skipped
 		return scanSkip, nil
 	}
 
